@@ -363,7 +363,7 @@ PROPS = {
             "Xet.Dedup.C14_session_sum", "Xet.Dedup.C14_session_sum_totals", "Xet.Dedup.C14_session_conserved", "Xet.Dedup.localQuery_legal",
             "Xet.Dedup.processLoop_inv", "Xet.Dedup.answersLegal_iff", "Xet.Dedup.lensFunctional_or_collision",
             "Xet.UploadBytes.C14_upload_layer_projects", "Xet.UploadBytes.C14_xorb_accumulator_exact", "Xet.UploadBytes.C14_xorb_upload_bytes_exact",
-            "Xet.UploadBytes.C14_shard_upload_bytes_exact", "Xet.UploadBytes.C14_upload_bytes_only_on_success",
+            "Xet.UploadBytes.C14_shard_upload_bytes_exact", "Xet.UploadBytes.C14_total_upload_bytes_exact", "Xet.UploadBytes.C14_upload_bytes_only_on_success",
             "Xet.UploadBytes.C14_xorb_accumulator_bounded", "Xet.UploadBytes.C14_upload_bytes_needs_take_after_join",
         ],
         "suites": ["deduper", "session", "session_conc", "session_faults"],
